@@ -174,3 +174,65 @@ Definition lock_accounted (l : mlock) : bool :=
 Definition locks_ok (ls : list mlock) : bool := forallb lock_accounted ls.
 Definition unaccounted_locks (ls : list mlock) : list (string * string * nat * string) :=
   map (fun l => (m_file l, m_func l, m_ord l, m_recv l)) (filter (fun l => negb (lock_accounted l)) ls).
+
+(* ------------------------------------------------------------------ channel operations per goroutine body (generated: reader_chanops)
+   c_send / c_recv: blocking sends and receives OUTSIDE a select (nested function literals included unless started by go),
+   c_sel: select statements, of which c_sel_done have a `<-X.Done()` case and c_sel_default a default clause, c_close: close calls. *)
+Record chanop := { c_file : string; c_func : string; c_ord : nat; c_send : nat; c_recv : nat; c_sel : nat;
+                   c_sel_done : nat; c_sel_default : nat; c_sel_plain : nat (* neither a Done case nor a default *);
+                   c_range : nat (* range loops: over a channel they receive until it is closed *); c_close : nat }.
+
+(* The reviewed channel operations of every goroutine body: blocking sends, blocking receives, selects, selects with
+   neither a Done case nor a default, range loops, close calls (functions and methods of the package that the body calls
+   are followed). Each vector was compared with the cell of the LTS that stands for the body (model/Pipeline.v,
+   ReadPath.v, ReadFwd.v: one send per message of n_on_msg / n_on_close, one range loop over the input, close = return);
+   a body that gains a blocking operation no longer matches and has to be reviewed against its cell. *)
+Record chan_allowed := CA { ca_file : string; ca_func : string; ca_ord : nat; ca_send : nat; ca_recv : nat; ca_sel : nat;
+                            ca_sel_plain : nat; ca_range : nat; ca_close : nat }.
+Definition chan_allow : list chan_allowed := [
+  CA "controller/queryRangeController.go" "(*QueryRangeController).Tail" 0 0 0 0 0 1 0;
+  CA "controller/queryRangeController.go" "(*QueryRangeController).Tail" 1 0 0 0 0 0 0;
+  CA "logql/logql_transpiler_v2/internal_planner/planner_generic.go" "(*GenericPlanner).WrapProcess" 0 2 0 0 0 2 1;
+  CA "logql/logql_transpiler_v2/internal_planner/planner_generic.go" "(*GenericPlanner).WrapProcess" 1 0 0 0 0 1 0;
+  CA "logql/logql_transpiler_v2/planner_from_fix.go" "(*FixPeriodPlanner).Process" 0 1 0 0 0 3 1;
+  CA "logql/logql_transpiler_v2/planner_matrix_step.go" "(*MatrixStepPlanner).Process" 0 1 0 0 0 2 1;
+  CA "logql/logql_transpiler_v2/shared/planner_clickhouse_getter.go" "(*ClickhouseGetterPlanner).Process" 0 4 0 1 0 1 1;
+  CA "logql/logql_transpiler_v2/shared/planner_clickhouse_getter.go" "(*ClickhouseGetterPlanner).Process" 1 8 0 2 0 2 2;
+  CA "service/queryLabelsService.go" "(*QueryLabelsService).GenericLabelReq" 0 4 0 0 0 0 1;
+  CA "service/queryLabelsService.go" "(*QueryLabelsService).Series" 0 1 0 0 0 0 1;
+  CA "service/queryLabelsService.go" "(*QueryLabelsService).Series" 1 4 0 0 0 1 1;
+  CA "service/queryRangeService.go" "drain" 0 0 0 0 0 1 0;
+  CA "service/queryRangeService.go" "(*QueryRangeService).QueryRange" 0 5 0 0 0 3 1;
+  CA "service/queryRangeService.go" "(*QueryRangeService).QueryRange" 1 5 0 0 0 3 1;
+  CA "service/queryRangeService.go" "(*QueryRangeService).QueryInstant" 0 5 0 0 0 3 1;
+  CA "service/queryRangeService.go" "(*QueryRangeService).QueryInstant" 1 4 0 0 0 4 1;
+  CA "service/queryRangeService.go" "(*QueryRangeService).Tail" 0 2 0 1 0 4 1;
+  CA "service/tempoService.go" "(*TempoService).OutputQuery" 0 1 0 0 0 13 1;
+  CA "service/tempoService.go" "(*TempoService).Tags" 0 1 0 0 0 0 1;
+  CA "service/tempoService.go" "(*TempoService).TagsV2" 0 1 0 0 0 2 1;
+  CA "service/tempoService.go" "(*TempoService).ValuesV2" 0 1 0 0 0 2 1;
+  CA "service/tempoService.go" "(*TempoService).Values" 0 1 0 0 0 0 1;
+  CA "service/tempoService.go" "(*TempoService).Search" 0 1 0 0 0 0 1;
+  CA "service/tempoServiceTraceQL.go" "(*TempoService).SearchTraceQL" 0 1 0 0 0 1 1;
+  CA "traceql/transpiler/complex_request_processor.go" "(*ComplexRequestProcessor).Process" 0 1 0 0 0 0 1;
+  CA "traceql/transpiler/complex_tags_v2_processor.go" "(*allTagsV2RequestProcessor).Process" 0 0 0 0 0 0 1;
+  CA "traceql/transpiler/complex_values_v2_processor.go" "(*allValuesV2RequestProcessor).Process" 0 0 0 0 0 0 1;
+  CA "traceql/transpiler/reqest_processor.go" "(TraceQLRequestProcessor).Process" 0 1 0 0 0 2 1;
+  CA "traceql/transpiler/simple_tags_v2_processor.go" "(*SimpleTagsV2RequestProcessor).Process" 0 0 0 0 0 0 1;
+  CA "utils/dbVersion/version.go" "throttle" 0 0 0 0 0 0 0;
+  CA "utils/logger/logger.go" "(*qrynFormatter).Run" 0 0 0 0 0 3 0;
+  CA "utils/logger/logger.go" "(*qrynFormatter).Run" 1 0 0 0 0 1 0;
+  CA "watchdog/watchdog.go" "Init" 0 0 0 0 0 1 0
+].
+
+Definition chan_same (c : chanop) (a : chan_allowed) : bool :=
+  String.eqb (c_file c) (ca_file a) && String.eqb (c_func c) (ca_func a) && Nat.eqb (c_ord c) (ca_ord a) &&
+  Nat.eqb (c_send c) (ca_send a) && Nat.eqb (c_recv c) (ca_recv a) && Nat.eqb (c_sel c) (ca_sel a) &&
+  Nat.eqb (c_sel_plain c) (ca_sel_plain a) && Nat.eqb (c_range c) (ca_range a) && Nat.eqb (c_close c) (ca_close a).
+
+(* accounted: the recorded vector; no select that can block without looking at a Done channel; a body that sends closes *)
+Definition chanop_accounted (c : chanop) : bool :=
+  existsb (chan_same c) chan_allow && Nat.eqb (c_sel_plain c) 0 && (Nat.eqb (c_send c) 0 || negb (Nat.eqb (c_close c) 0)).
+Definition chanops_ok (cs : list chanop) : bool := forallb chanop_accounted cs.
+Definition unaccounted_chanops (cs : list chanop) : list (string * string * nat) :=
+  map (fun c => (c_file c, c_func c, c_ord c)) (filter (fun c => negb (chanop_accounted c)) cs).
